@@ -287,3 +287,10 @@ Definition is_nil (o : outcome) : bool :=
 Definition n_typename : name := [95;95;116;121;112;101;110;97;109;101]%N.      (* __typename *)
 Definition n_schema : name := [95;95;115;99;104;101;109;97]%N.                  (* __schema *)
 Definition n_type : name := [95;95;116;121;112;101]%N.                          (* __type *)
+
+(** ** A whole executable document: several operations sharing the fragment definitions *)
+Record operation := { o_name : option name; o_kind : opkind; o_pos : pos; o_sels : list selection }.
+Record request_doc := { r_ops : list operation; r_frags : list fragdef }.
+(** the document as one operation sees it *)
+Definition doc_of (R : request_doc) (o : operation) : document :=
+  {| op_kind := o_kind o; op_pos := o_pos o; op_sels := o_sels o; frags := r_frags R |}.
